@@ -4,7 +4,7 @@
    after the path checks) — faithful to /repo with fix F20 (empty
    If-Modified-Since header). *)
 From Verif Require Import lib.Base lib.Str lib.PyIntParse model.Static model.Range
-     proofs.C17_range proofs.C17_serve.
+     proofs.C17_range proofs.C17_serve proofs.C17_dec.
 Local Open Scope Z_scope.
 
 (* Whatever Python's int() does (any function [pint]): a range returned by
@@ -45,6 +45,29 @@ Theorem C17_rfc_none_iff_unsatisfiable :
   forall sp len, rfc_range sp len = None <-> ~ selects sp len.
 Proof. exact rfc_range_none_iff. Qed.
 Print Assumptions C17_rfc_none_iff_unsatisfiable.
+
+(* KNOWN FINDING C17-int-digit-limit: the guard "at most 4300 digits" above is
+   needed.  "bytes=0-99...9" with 4301 nines on a 10-byte representation selects
+   bytes 0-9 by the RFC; Python's int() raises ValueError (default int/str digit
+   limit) and get_first_range answers None, i.e. 416. *)
+Theorem C17_range_rfc_digit_limit_refuted :
+  exists (da db : str) (len : Z),
+    da <> [] /\ db <> [] /\ forallb is_digit da = true /\ forallb is_digit db = true /\ 0 <= len
+    /\ length db = 4301%nat
+    /\ get_first_range py_int_dec (s_bytes_eq ++ da ++ DASH :: db) len = None
+    /\ rfc_range (SFromTo (dval da) (dval db)) len = Some (0, 10).
+Proof. exact digit_limit_witness. Qed.
+Print Assumptions C17_range_rfc_digit_limit_refuted.
+
+(* The decimal texts put into Content-Length and Content-Range (dec_of_Z = the
+   model of str(int) / f-string formatting) are digit strings that denote the
+   number, and Python's own int() reads them back (any z < 2^4299). *)
+Theorem C17_decimal_text_denotes :
+  forall z : Z, 0 <= z -> (N.log2 (Z.to_N z) < 4299)%N ->
+    py_int_dec (dec_of_Z z) = Some z
+    /\ forallb is_digit (dec_of_Z z) = true /\ dval (dec_of_Z z) = Z.to_N z.
+Proof. exact decimal_text_lemma. Qed.
+Print Assumptions C17_decimal_text_denotes.
 
 (* _file_iter_range(fp, offset, n, maxread) on a regular file, offset >= 0,
    n >= 0, maxread > 0: terminates within the model's fuel, delivers exactly
